@@ -285,11 +285,61 @@ fn overflow_run(h: &mut H, ai: usize, slot_start: u32, arch_start: u32, variant:
     h.op_drop(1, None);
 }
 
+/// A long history on few positions with light observation (len/capacity only), fully observed
+/// every `every` steps and at the end: long event logs, generations in the thousands, and clears
+/// of long logs.
+fn long_run(h: &mut H, ai: usize, cycles: usize, every: usize) {
+    h.op_reset();
+    h.begin("init");
+    h.op_init(0, [2, 2, 2, 2]);
+    let p: Vec<i64> = (0..32).map(|i| 700 + i).collect();
+    h.begin("create");
+    let keep = h.op_create(0, ai, &p, 0, false);
+    for i in 0..cycles {
+        h.light = (i + 1) % every != 0;
+        h.begin("create");
+        let t = h.op_create(0, ai, &p, (i % 4) as u8, i % 3 == 0);
+        if let Some(t) = t {
+            h.begin("destroy");
+            h.op_destroy(0, ks(Key::Ent(t), i % 2 == 0, i % 5 != 0), None);
+        }
+        // keep the issued-handle pool (probed at full observations) small
+        let n = h.pool[0].len();
+        if n > 40 { h.pool[0].drain(1..n - 20); }
+    }
+    h.light = false;
+    h.begin("clear_events");
+    h.op_clear_events(0, Some(ai));
+    h.begin("create");
+    let t = h.op_create(0, ai, &p, 1, true);
+    if let Some(t) = t {
+        h.begin("destroy");
+        h.op_destroy(0, ks(Key::Ent(t), true, true), None);
+    }
+    h.begin("clear_events");
+    h.op_clear_events(0, None);
+    if let Some(k) = keep {
+        h.begin("destroy");
+        h.op_destroy(0, ks(Key::Ent(k), false, true), None);
+    }
+    h.begin("clone");
+    h.op_clone(0, 1, None);
+    h.begin("drop");
+    h.op_drop(0, None);
+    h.begin("drop");
+    h.op_drop(1, None);
+}
+
 pub fn boundary(h: &mut H) {
     let max = u32::MAX;
     let mut variant = 0u64;
+    for (ai, cycles) in [(0usize, 1300usize), (2, 300)] {
+        if guard(|| long_run(h, ai, cycles, 260)).is_err() { h.light = false; h.crash("escaped_panic"); }
+    }
     for ai in 0..NARCH {
-        for (slot, arch) in [(max - 2, 7u32), (max - 1, 7), (max, 7), (1, max - 2), (5, max - 1), (5, max), (max - 1, max - 1), (max, max)] {
+        // generation / version limits, and the inner power-of-two boundaries (16, 24, 31 bits)
+        for (slot, arch) in [(max - 2, 7u32), (max - 1, 7), (max, 7), (1, max - 2), (5, max - 1), (5, max), (max - 1, max - 1), (max, max),
+                             ((1 << 16) - 2, (1 << 16) - 3), ((1 << 24) - 2, (1 << 24) - 3), ((1u32 << 31) - 2, (1u32 << 31) - 3)] {
             variant += 1;
             let r = guard(|| overflow_run(h, ai, slot, arch, variant));
             if r.is_err() { h.crash("escaped_panic"); }
